@@ -205,7 +205,7 @@ contract(
     GCP,
     name="only",
     **GCP_COMMON,
-    globals={**_GLOBALS, "sorted": make_sorted_pairs("from", ("from",))},
+    globals={**_GLOBALS, "sorted": make_sorted_pairs("from", ("from", "back"))},
     ensures={
         # a pair is listed only if it has one of the two shapes and BOTH names occur among the glyphs' anchors
         "pair-shapes": "all(" + _pair_ok("result[k]") + " for k in range(len(result)))",
